@@ -77,6 +77,22 @@ def tree_hash(repo, extra=()):
     return h.hexdigest()
 
 
+_DRV_STAMP = None
+
+
+def driver_stamp():
+    """hash of the extractor's sources: fact files written by another version of the driver are never reused"""
+    global _DRV_STAMP
+    if _DRV_STAMP is None:
+        h = hashlib.sha256()
+        d = os.path.join(VERIF, 'engine', 'driver', 'src')
+        for f in sorted(os.listdir(d)):
+            with open(os.path.join(d, f), 'rb') as fh:
+                h.update(f.encode() + b'\0' + fh.read())
+        _DRV_STAMP = h.hexdigest()[:16]
+    return _DRV_STAMP
+
+
 def ensure_driver():
     if os.path.exists(DRIVER):
         return
@@ -112,7 +128,7 @@ def extract_facts(repo, config='all', crate='hpke', force=False):
     ensure_driver()
     os.makedirs(os.path.join(CACHE, 'facts'), exist_ok=True)
     os.makedirs(os.path.join(CACHE, 'target'), exist_ok=True)
-    th = tree_hash(repo, extra=(config, crate))
+    th = tree_hash(repo, extra=(config, crate, driver_stamp()))
     out = os.path.join(CACHE, 'facts', '%s-%s.json' % (th[:24], config.replace(':', '_').replace(',', '+')))
     if os.path.exists(out) and not force:
         try:
